@@ -21,6 +21,9 @@ REQUIRED = ["DaeVerif.C15.Props." + n for n in (
     "selected_node_is_alive_all_histories",
     "group_invariant_all_histories_partial",
     "chooseSelect_is_a_select",
+    "select_prefers_earlier_domain",
+    "data_udp_chain_order",
+    "measurement_once_always",
 )]
 REQUIRED = [n.replace("Props.alive_set_invariant", "Props.alive_set_invariant_partial") if n.endswith(".alive_set_invariant") else n for n in REQUIRED]
 
